@@ -306,4 +306,11 @@ def obligations():
                       bound="monotone profiles of 2..3 rows that may lie closer together than the default utility's 0.1 K glide, one utility per side",
                       doc="CLOSURE with rows inside the default utility's glide (latent streams at the end of the temperature range)")
     obs += split(fine, hot_side=[True, False])
+    # the assignment is made on the load profiles derived from the POCKET-FREE curve: those callee contracts (C07) are discharged here too,
+    # so that a change to the pocket sweep is reported for this property as well
+    from . import C07
+    for o in C07.obligations():
+        if o.tier == "quick" and (o.name.startswith("C07.np.") or o.name.startswith("C07.split")) and "sawtooth4" not in o.name and "sawtooth5" not in o.name:
+            obs.append(Obligation(o.name.replace("C07.", "C03.dep."), o.fn, kind=o.kind, functions=o.functions, bound=o.bound, max_paths=o.max_paths, params=o.params,
+                                  timeout_ms=o.timeout_ms, expect=o.expect, stubs=o.stubs, doc="(callee contract, shared with C07) " + (o.doc or "")))
     return obs
